@@ -73,7 +73,9 @@ def instances(tier, seed):
             orders = rnd.sample(orders, 2500)
         for o in orders:
             n += 1
-            out.append(dict(id="e%d" % n, K=K, M=M, C=C, cancel=cancel, order=o, settle=rnd.choice([150, 400]), seed=seed))
+            # some or all connections arrive through an attached source listener (IngressListener) instead of IngressConn
+            via = rnd.choice([[], [], [K], list(range(1, K + 1)), [1]])
+            out.append(dict(id="e%d" % n, K=K, M=M, C=C, cancel=cancel, order=o, via=via, settle=rnd.choice([150, 400]), seed=seed))
     # randomised stress: no settling, many small instances
     reps = 600 if tier == "quick" else 8000
     for r in range(reps):
@@ -90,7 +92,8 @@ def instances(tier, seed):
             cnt[x[0]] = cnt.get(x[0], 0) + 1
             norm.append("%s%d" % (x[0], cnt[x[0]]))
         n += 1
-        out.append(dict(id="s%d" % n, K=K, M=M, C=C, cancel=cancel, order=norm, settle=rnd.choice([0, 0, 0, 20, 60]), seed=seed))
+        via = [i for i in range(1, K + 1) if rnd.random() < 0.35]
+        out.append(dict(id="s%d" % n, K=K, M=M, C=C, cancel=cancel, order=norm, via=via, settle=rnd.choice([0, 0, 0, 20, 60]), seed=seed))
     return out
 
 
@@ -262,7 +265,7 @@ def _check(prop, tier, seed, replay, scr, t0):
             nontrivial.add(json.dumps(v))
     coverage = dict(states=st + est[0], transitions=tr + est[1], traces_validated_against_impl=explained, samples=samples,
                     evaluations=len(insts), distinct_nontrivial=len(nontrivial),
-                    rule="instances = every distinct start order of small operation sets (ingress x k, accept x m, close x 1-2, parent cancel) with settling between starts + seeded stress instances without settling, all under the race detector; non-trivial = distinct recorded histories in which some connection was returned by an accept AND some connection was closed by the listener",
+                    rule="instances = every distinct start order of small operation sets (ingress x k - through IngressConn or through a source listener attached with IngressListener -, accept x m, close x 1-2, parent cancel) with settling between starts + seeded stress instances without settling, all under the race detector; non-trivial = distinct recorded histories in which some connection was returned by an accept AND some connection was closed by the listener",
                     mc_runs=mc_runs, instances=len(insts), events=len(lines), monitored_instances=len(insts),
                     explained_instances=explained, unexplained_instances=len(unexplained), race_reports=len(races),
                     known_findings_hit=known_hit, exhaustive=False)
